@@ -1,5 +1,6 @@
 import CwMt.Proofs.Engine
 import CwMt.Proofs.EngineOrder
+import CwMt.Proofs.Rules
 /-
   C03 — reply is invoked exactly when, and with exactly what, the sub-message dictates.
   Stated against the ghost invocation trace (one entry per contract entry-point invocation, in
@@ -82,5 +83,24 @@ theorem body_before_submessages (cfg : Config E) (blk : Block) (fuel : Nat) (ch 
     ∃ note rest, (execute cfg blk (fuel + 1) ch sender (.wasmExecute c m funds) tr).2 =
       tr ++ [⟨c, .execute ⟨sender, funds⟩ m, contractEnv blk c, note⟩] ++ rest :=
   EngineOrder.body_before_submessages cfg blk fuel ch sender c m funds tr
+
+/-! ### tie T: the reply rule of the current sources (`execute_submsg`, re-read on every run by checklib/tr_rules.py) -/
+
+/-- The table regenerated from /repo/src/wasm.rs — per arm of the sub-message result: the `reply_on` variants for which
+`reply` is called, the `Reply { id, payload, gas_used: 0, result }` literal (for `Ok`: the sub-message's own events and
+data), the reply's data replacing and its events extending the sub-message's response, data dropped when no reply is
+called, the error propagating when none is wanted — is the rule `Engine.executeSubmsg` transcribes. -/
+theorem reply_rule_as_modelled : Gen.Rules.replyArms = expectedReplyArms :=
+  Rules.reply_arms_as_modelled
+
+/-- For every mode: the model's "reply after success" is membership in the variant set the sources list in the `Ok` arm. -/
+theorem reply_on_success_is_source_rule (m : ReplyOn) :
+    wantsReplyOnOk m = (replyModes Gen.Rules.replyArms "Ok").contains (Rules.modeName m) :=
+  Rules.wantsReplyOnOk_is_source_rule m
+
+/-- For every mode: the model's "reply after failure" is membership in the variant set the sources list in the `Err` arm. -/
+theorem reply_on_failure_is_source_rule (m : ReplyOn) :
+    wantsReplyOnErr m = (replyModes Gen.Rules.replyArms "Err").contains (Rules.modeName m) :=
+  Rules.wantsReplyOnErr_is_source_rule m
 
 end CwMt.C03
